@@ -1146,6 +1146,12 @@ class Summariser:
             fi = M.functions[name]
             if name[:1].isupper():
                 return ("ctor", name, args, kws)
+            if any(self.is_stream(a) for a in args) or any(self.is_stream(v) for _, v in kws):
+                # a package-level helper that is handed a stream (a new sibling of stream_read / stream_write): looked into, so that what it
+                # does with the stream is seen at the call site; helpers with several exits stay opaque calls
+                r = self.inline(fi, args, kws, node, st)
+                if r is not None:
+                    return r
             t = ("call", fterm, args, kws)
             self.emit(st, "CALL", {"func": fterm, "args": args, "kw": kws, "res": t, "callee": "package"}, node)
             return t
@@ -1255,6 +1261,12 @@ class Summariser:
             return None
         sub = st.fork()
         sub.env = dict(self.inline_env(st))
+        dflt = dict(zip(names[len(names) - len(a.defaults):], a.defaults)) if a.defaults else {}
+        for nm in names[len(args):]:
+            if nm in dflt and nm not in dict(kws):
+                if not isinstance(dflt[nm], ast.Constant):
+                    return None
+                sub.env[nm] = N.const(dflt[nm].value) if dflt[nm].value is not None else N.NONE
         for nm, v in zip(names, args):
             sub.env[nm] = v
         for k, v in kws:
